@@ -78,16 +78,71 @@ class SStr(Sym):
 
 class SSeq(Sym):
     """A list of objects of symbolic length: Seq(Ref).  `elem` describes how an element
-    reference is materialised as an object (an ElemKind)."""
-    __slots__ = ("term", "elem", "struct")
+    reference is materialised as an object (an ElemKind).
+
+    `term` is the z3 value of the list NOW.  When the structure of the list names a MUTABLE member
+    object (SObj.mutable_elem: a concrete object the contract placed in the list and the code under
+    proof may still assign to, e.g. the Session-Id AVP of an answer), the term is rebuilt from the
+    structure on every read: a member that was assigned to since has been given a fresh reference
+    whose field functions equal its new field values, so every fold / equation over the list sees the
+    new content, while terms read earlier keep denoting the old content."""
+    __slots__ = ("_term", "elem", "struct")
 
     def __init__(self, term, elem, struct=None):
-        self.term = term
+        self._term = term
         self.elem = elem
         self.struct = struct or ("var",)
 
+    @property
+    def term(self):
+        if _struct_dynamic(self.struct, 0):
+            return _struct_term(self, 0)
+        return self._term
+
+    @term.setter
+    def term(self, t):
+        self._term = t
+
     def __repr__(self):
         return "SSeq(%s)" % (self.term,)
+
+
+CURRENT_CTX = [None]          # the path context (needed to re-adopt a mutated member object)
+
+
+def _struct_dynamic(st, depth):
+    k = st[0]
+    if depth > 12:
+        return False
+    if k == "snoc":
+        return getattr(st[2], "mutable_elem", False) or _struct_dynamic(st[1].struct, depth + 1)
+    if k == "concat":
+        return _struct_dynamic(st[1].struct, depth + 1) or _struct_dynamic(st[2].struct, depth + 1)
+    if k == "alias":
+        return _struct_dynamic(st[1].struct, depth + 1)
+    return False
+
+
+def _struct_term(sq, depth):
+    import z3
+    st = sq.struct
+    k = st[0]
+    if depth > 12 or not _struct_dynamic(st, depth):
+        return sq._term
+    if k == "snoc":
+        base, xo = st[1], st[2]
+        r = xo.ref
+        if r is None:
+            r = sq.elem.adopt(CURRENT_CTX[0], xo)
+        bt = _struct_term(base, depth + 1)
+        if base.struct[0] == "empty":
+            return z3.Unit(r)
+        return z3.Concat(bt, z3.Unit(r))
+    if k == "concat":
+        return z3.Concat(_struct_term(st[1], depth + 1), _struct_term(st[2], depth + 1))
+    if k == "alias":
+        return _struct_term(st[1], depth + 1)
+    return sq._term
 
 
 class SObj(object):
@@ -102,6 +157,8 @@ class SObj(object):
         self.idict = {} if has_dict else None
         self.ref = None
         self.frozen = False
+        self.mutable_elem = False    # placed in a symbolic sequence but still assignable (see SSeq.term)
+        self.elem_kind = None
         SObj._count[0] += 1
         self.oid = SObj._count[0]
 
